@@ -198,12 +198,13 @@ CHECKS["C14"] = {
     "engine": "HIST (BFS over control-plane histories) + SCOPE (complete request matrix per state)",
     "technique": "breadth-first explicit-state search over control-plane event histories of the real server (merged by canonical control state), with the complete route x method x principal x encoding x target request matrix evaluated at every state through the real router over a journalling store",
     "design_ref": "DESIGN.md 5/C14",
-    "text": "hist: BFS over {create A/B with or without key, set_api_key, remove_api_key, close, open, connect, restart} from three roots (admin key; loopback; admin + A(key) + B(key)) to depth 2 (quick) / 8 (thorough, exhaustive: 1,213 states); at every state the full matrix: GET /, POST /, POST to 11 target spellings (A, B, percent-encoded, with query string, missing, primary, bad name, encoded slash, path-only) x every method of both dispatch tables (scraped from api/mod.rs at build time and cross-checked) + 3 unknown names x minimal/malformed params + 6 body probes x CBOR/JSON x principals {none, garbage, malformed header, admin, every issued or revoked token, an unissued one, the hash of the bound key}, each state replayed in four worlds (rejected cells; key holder on its own db; a twin world where only the other database differs; admin): every rejected response is byte-identical to the same caller's request for a nonexistent database, is 401/403 and causes no store call (never 400/404/413/415 first); the key holder's store calls stay under its prefix; no response contains the other database's name, data, tokens, hashes or instance state; answers are byte-identical in the twin world; an admin dump of the other database and server state is unchanged by every mutating cell. faults: in every control state to depth 1 (thorough 3) every writing control-plane event (create with/without key, set_api_key incl. the server-generated-key form, remove_api_key, close, open, connect) with each of its backend mutations answered ErrBefore and ErrAfter once: afterwards every credential (none, garbage, issued, revoked, mentioned, unissued) on every target, live and after a restart, is answered as in the model state before OR after the event, never a third state. hist additionally: constructed near-miss credentials per key (digest agreeing in the first/last 1-2 bytes, prefix/extension, hex of the hash), the generated-key form of db.set_api_key as event and as request, a restart lookahead and a restart WITHOUT admin key at every state (must be refused while any binding exists). reads: every Read-classified method x 12 lifecycle states x {admin, key holder} x {CBOR, JSON} on a fresh server with the method as the first request touching the database: zero journalled mutations.",
+    "text": "hist: BFS over {create A/B with or without key, set_api_key, remove_api_key, close, open, connect, restart} from three roots (admin key; loopback; admin + A(key) + B(key)) to depth 2 (quick) / 8 (thorough, exhaustive: 1,213 states); at every state the full matrix: GET /, POST /, POST to 11 target spellings (A, B, percent-encoded, with query string, missing, primary, bad name, encoded slash, path-only) x every method of both dispatch tables (scraped from api/mod.rs at build time and cross-checked) + 3 unknown names x minimal/malformed params + 6 body probes x CBOR/JSON x principals {none, garbage, malformed header, admin, every issued or revoked token, an unissued one, the hash of the bound key}, each state replayed in four worlds (rejected cells; key holder on its own db; a twin world where only the other database differs; admin): every rejected response is byte-identical to the same caller's request for a nonexistent database, is 401/403 and causes no store call (never 400/404/413/415 first); the key holder's store calls stay under its prefix; no response contains the other database's name, data, tokens, hashes or instance state; answers are byte-identical in the twin world; an admin dump of the other database and server state is unchanged by every mutating cell. faults: in every control state to depth 1 (thorough 3) every writing control-plane event (create with/without key, set_api_key incl. the server-generated-key form, remove_api_key, close, open, connect) with each of its backend mutations answered ErrBefore and ErrAfter once: afterwards every credential (none, garbage, issued, revoked, mentioned, unissued) on every target, live and after a restart, is answered as in the model state before OR after the event, never a third state. hist additionally: constructed near-miss credentials per key (digest agreeing in the first/last 1-2 bytes, prefix/extension, hex of the hash), the generated-key form of db.set_api_key as event and as request, a restart lookahead and a restart WITHOUT admin key at every state (must be refused while any binding exists). reads: every Read-classified method x 12 lifecycle states x {admin, key holder} x {CBOR, JSON} on a fresh server with the method as the first request touching the database: zero journalled mutations. faults additionally demands: an event that answered an error with zero landed backend mutations leaves exactly the BEFORE state; the live instance and the gracefully restarted one are the same model state for every binding event (db.close is exempt: a failed registry write closes the database live and reopens it on restart, the documented contract of close_db); a fault-free retry of the faulted event that is acknowledged 2xx holds live and after a power failure (store content restored without graceful close). race: exhaustive 2-task schedules (3 orders: event first / request headers accepted and body pending while the event runs / request first) of one request against one control event in every control state to depth 1 (thorough 3): the request body is a hand-fed stream on a single-threaded runtime, so 'headers passed the middleware, handler not yet run' is a deterministic await point; credentials {none, garbage, admin, every issued, revoked, to-be-bound, unissued} x targets {/, /A, /B, /missing} x {Read, Mutating}; in-flight requests must be rejected if the credential is rejected before OR after the event and served only if both allow it; rejected = byte-identical to the same caller's answer for a nonexistent database and no store mutation after the event returned.",
     "note": "One request at a time (no concurrent key rotation); observable = status, headers, body, store journal - no timing. Effect labels come from the source text of the parse tables. Recorded finding: in the lifecycle state 'cold collection with crash residue' the first Read-classified request runs recovery and flushes (11 method signatures).",
     "parts": [
         {"part": "hist", "crate": "vserver", "bin": "c14_hist", "budget_quick": 30, "budget_thorough": 1200},
         {"part": "reads", "crate": "vserver", "bin": "c14_reads", "budget_quick": 8, "budget_thorough": 300},
         {"part": "faults", "crate": "vserver", "bin": "c14_faults", "budget_quick": 6, "budget_thorough": 300},
+        {"part": "race", "crate": "vserver", "bin": "c14_race", "budget_quick": 6, "budget_thorough": 300},
     ],
 }
 
@@ -266,11 +267,13 @@ CHECKS["C19"] = {
     "engine": "HIST/SCOPE (control-plane action sequences x principals x query battery, relational check between two executions) + command enumeration",
     "technique": "explicit enumeration of governance configurations reachable by control-plane action sequences on the real Nexus; per configuration and principal the implementation's decision matrix is compared with an independent AuthModel and every battery answer with the owner's answer on a second Nexus holding only what the principal may read (non-interference as a relation between two executions); complete enumeration of protected-field positions x spellings for the command language",
     "design_ref": "DESIGN.md 5/C19",
-    "text": "nonint: all control-plane action sequences (owner, two principals, one group) to depth 2 + new AuthModel states to depth 3 (quick; thorough 3 / 4: 25,371 configurations) over 19 (24) actions: grants scoped by kind / type / classification / element, classification ceiling, field mask, expired grant, write grant, group grant, delegation and re-delegation, two policies with allow + deny and a condition, revoke grant, revoke delegation, suspend; every prefix is its own configuration, so the battery runs after EVERY control action (immediacy). Per configuration and principal: AuthModel decision == EffectiveAuthority::authorize over 15 permissions x 15 resources; the read battery (40 quick / 64 thorough commands: lookups, patterns, indexed matchers, COUNT/aggregates, tuples/paths, ORDER BY/FILTER on masked fields, OPTIONAL/NOT/UNION, LIMIT+CURSOR, AS OF, SEARCH + paging, HISTORY/CHANGES, DESCRIBE, LIST, EXPORT, PREVIEW KML) as the principal on the full store must equal the owner's answers on a second store holding only what AuthModel lets the principal read with masked fields left out (rows, order, counts, cursors kept; ids mapped to logical keys); plus a taint check (no name/id/token of an unreadable element anywhere) and PREVIEW existence-neutrality. commands: 27 field-name positions across the clause families x 16 protected-field spellings, as text and as pre-parsed ast, ordinary mutations of all 16 clause families (also as PREVIEW / VALIDATE / dry run), 28 control-plane look-alike statements, 27 reads, for owner / broad writer / restricted reader: the 8 gov_* collections, every element's governance column and the space's authority members are byte-identical before and after every command (audit rows may only be appended).",
+    "text": "nonint: all control-plane action sequences (owner, two principals, one group) to depth 2 + new AuthModel states to depth 3 (quick; thorough 3 / 4: 25,371 configurations) over 19 (24) actions: grants scoped by kind / type / classification / element, classification ceiling, field mask, expired grant, write grant, group grant, delegation and re-delegation, two policies with allow + deny and a condition, revoke grant, revoke delegation, suspend; every prefix is its own configuration, so the battery runs after EVERY control action (immediacy). Per configuration and principal: AuthModel decision == EffectiveAuthority::authorize over 15 permissions x 15 resources; the read battery (40 quick / 64 thorough commands: lookups, patterns, indexed matchers, COUNT/aggregates, tuples/paths, ORDER BY/FILTER on masked fields, OPTIONAL/NOT/UNION, LIMIT+CURSOR, AS OF, SEARCH + paging, HISTORY/CHANGES, DESCRIBE, LIST, EXPORT, PREVIEW KML) as the principal on the full store must equal the owner's answers on a second store holding only what AuthModel lets the principal read with masked fields left out (rows, order, counts, cursors kept; ids mapped to logical keys); plus a taint check (no name/id/token of an unreadable element anywhere) and PREVIEW existence-neutrality. commands: 27 field-name positions across the clause families x 16 protected-field spellings, as text and as pre-parsed ast, ordinary mutations of all 16 clause families (also as PREVIEW / VALIDATE / dry run), 28 control-plane look-alike statements, 27 reads, for owner / broad writer / restricted reader: the 8 gov_* collections, every element's governance column and the space's authority members are byte-identical before and after every command (audit rows may only be appended). The principal set includes a co-owner and two-Grant delegators (a delegator holding a broad and a narrow delegable Grant and a Delegation listing the narrowly held action with the broad bounds); the relational read battery, including Epistemic Projection under every block nesting, is answered once per distinct resolved authority. writes: per-clause write authorization of multi-clause statements - a principal holding read/create/update unscoped and a second bundle (tombstone, archive, manage_retention, purge, merge_identity, maintain) narrowed by kind / element / classification / not at all sends each narrowed family alone and in blocks with UPDATE or UPSERT in both orders, three-clause and two-target blocks (196 statements) on an element the narrowing reaches and one it does not; the reference authorizes each clause separately from the gate's permission table, and where it refuses the statement must be refused with every element row byte-identical afterwards. step: STEP scheduler over a gated store with three tasks - the owner's KML statement, the agent's request (KML write or KQL read) and the host's control-plane change (revoke Grant, suspend Principal, revoke Delegation, revoke the delegator's Grant, publish a denying policy version) - all schedules with <=1 preemption (thorough <=2); the agent must be refused exactly where its request can only have executed after the change returned (the change returned before the agent was first polled, or the owner held the write lock ahead of the agent and the change completed before the owner did); other schedules may see either authority; always: the agent's Concept exists iff it was allowed.",
     "note": "AuthModel restates the documented decision order. One fixed population of 9 elements; no approvals, purposes, max_results, multiple spaces; KML error codes as an existence channel only probed through PREVIEW. Eight root causes (16 signatures) recorded as known findings, none repaired (governance semantics).",
     "parts": [
-        {"part": "nonint", "crate": "vgov", "bin": "c19_nonint", "budget_quick": 32, "budget_thorough": 1500},
+        {"part": "nonint", "crate": "vgov", "bin": "c19_nonint", "budget_quick": 30, "budget_thorough": 1500},
         {"part": "commands", "crate": "vgov", "bin": "c19_cmd", "budget_quick": 8, "budget_thorough": 60},
+        {"part": "writes", "crate": "vgov", "bin": "c19_write", "budget_quick": 4, "budget_thorough": 30},
+        {"part": "step", "crate": "vgov", "bin": "c19_step", "budget_quick": 25, "budget_thorough": 600},
     ],
 }
 
